@@ -27,7 +27,7 @@ RULE = ("case = one generated EDIF-expressible netlist (all named, non-empty bun
         "at least one bus net")
 ASSUMPTIONS = ["port base index and library/cell order are not compared (not promised by C03)",
                "scalar net names do not end in [digits] (EDIF bus-bit convention)"]
-REQUIRED = {"round_trips": 100, "nets_compared": 2000, "sexp_inventories_compared": 80}
+REQUIRED = {"round_trips": 100, "nets_compared": 2000, "sexp_inventories_compared": 80, "case_only_renames_after_the_first_write": 200}
 
 
 def plan(tier):
